@@ -102,11 +102,11 @@ fn resolve(def: &str, reg: &Registry, depth: usize) -> Result<f64, String> {
 }
 
 const OP_NAMES: [&str; 5] = ["addone", "noop", "myop", "other", "utm"];
-const RES_NAMES: [&str; 6] = ["m:a", "m:b", "n:a", "m:ab", "plainname", "f:disk"];
+const RES_NAMES: [&str; 8] = ["m:a", "m:b", "n:a", "m:ab", "plainname", "f:disk", "m:a:b", "a:b:c:d"];
 
 fn random_def(rng: &mut Rng) -> String {
     let step = |rng: &mut Rng| -> String {
-        let n = if rng.chance(0.5) { *rng.pick(&OP_NAMES[..4]) } else { *rng.pick(&["m:a", "m:b", "n:a", "m:ab", "f:disk", "f:reg", "f:last", "g:crlf", "x:none", "nosuch"]) };
+        let n = if rng.chance(0.5) { *rng.pick(&OP_NAMES[..4]) } else { *rng.pick(&["m:a", "m:b", "n:a", "m:ab", "f:disk", "f:reg", "f:last", "g:crlf", "x:none", "nosuch", "m:a:b", "a:b:c:d"]) };
         match rng.below(4) {
             0 => format!("{n} inv"),
             1 => format!("inv {n}"),
@@ -436,6 +436,8 @@ fn threaded(h: &H, idx: u64, rng: &mut Rng) {
     let rounds = if h.quick() { 12 } else { 30 };
     let seeds: Vec<u64> = (0..nthreads).map(|_| rng.u64()).collect();
     type Log = Vec<(u64, usize, String, u64, usize)>;
+    let issued: Mutex<Vec<(usize, OpHandle)>> = Mutex::new(handles.iter().map(|(_, op)| (usize::MAX, *op)).collect());
+    let foreign_accepted = AtomicU64::new(0);
     let logs: Vec<Log> = std::thread::scope(|s| {
         let mut joins = Vec::new();
         for t in 0..nthreads {
@@ -445,6 +447,8 @@ fn threaded(h: &H, idx: u64, rng: &mut Rng) {
             let pts = &pts;
             let pts_deg = &pts_deg;
             let seed = seeds[t];
+            let issued = &issued;
+            let foreign_accepted = &foreign_accepted;
             joins.push(s.spawn(move || {
                 let mut r = Rng::new(seed);
                 let mut log: Log = Vec::new();
@@ -470,6 +474,12 @@ fn threaded(h: &H, idx: u64, rng: &mut Rng) {
                             let k = r.below(handles.len() - 1);
                             let d = handles[k].0;
                             if let Ok(op) = own.op(d) {
+                                issued.lock().unwrap().push((t, op));
+                                // a handle issued by another context is unknown to the shared one
+                                let mut probe = pts.to_vec();
+                                if shared.apply(op, Fwd, &mut probe).is_ok() {
+                                    foreign_accepted.fetch_add(1, Ordering::SeqCst);
+                                }
                                 let inp = if d.starts_with("geo:in") { pts_deg } else { pts };
                                 let fp = fingerprint(&own, op, inp);
                                 log.push((clock.fetch_add(1, Ordering::SeqCst), k, "own.op+apply".into(), fp.0, fp.1));
@@ -491,6 +501,28 @@ fn threaded(h: &H, idx: u64, rng: &mut Rng) {
         }
         joins.into_iter().map(|j| j.join().unwrap_or_default()).collect()
     });
+    // ---- handles: unique over all threads and contexts; foreign ones refused -----------------------
+    {
+        let all = issued.lock().unwrap();
+        let mut seen: BTreeMap<String, usize> = BTreeMap::new();
+        for (t, op) in all.iter() {
+            if let Some(prev) = seen.insert(format!("{op:?}"), *t) {
+                v(
+                    h,
+                    idx,
+                    "threaded/handle-not-unique-across-threads",
+                    J::obj().set("handle", format!("{op:?}")).set("issued_in_thread", *t as i64).set("and_in_thread", prev as i64).set("handles_issued", all.len()),
+                );
+                return;
+            }
+        }
+        h.class_n("threaded/handles-compared", all.len() as u64);
+        let fa = foreign_accepted.load(Ordering::SeqCst);
+        if fa > 0 {
+            v(h, idx, "threaded/foreign-handle-accepted", J::obj().set("what", "a handle issued by a thread's own context was accepted by the shared context").set("times", fa as i64));
+            return;
+        }
+    }
     // ---- offline checker over the merged event log ----------------------------------------------
     let mut merged: Vec<(u64, usize, usize, String, u64, usize)> = Vec::new();
     for (t, l) in logs.iter().enumerate() {
